@@ -60,6 +60,7 @@ void mem_install_handlers();
 // hook for other seams (cpu/sched) to look at SIGSEGV first; return true if handled
 typedef bool (*segv_hook_t)(int sig, siginfo_t *si, void *uc);
 extern segv_hook_t g_segv_hook;
+extern void (*g_crash_hook)(const char *sym, void *addr); // library crashed outside any guarded call: report and exit
 
 #define GUARDED(gc, ...)                                                                          \
         ({                                                                                         \
